@@ -508,6 +508,10 @@ func func_decimal(rtParams FunctionParameterTypes, val any, decSlcFunc func(deci
 		return errBool(name, err)
 	}
 
+	if (name == FT_Divide || name == FT_Modulo) && param.IsZero() {
+		return errBool(name, fmt.Errorf("division by zero"))
+	}
+
 	if valIfc, ok := val.(decimal.Decimal); ok {
 		return decSlcFunc(valIfc, param), nil
 	}
